@@ -1625,6 +1625,22 @@ fn body_with_point((log, id): (Log, u32)) -> NormalReturn<()> {
   NormalReturn::new(())
 }
 
+type VictimCell = Arc<Mutex<Option<rxrust::scheduler::TaskHandle<NormalReturn<()>>>>>;
+
+/// a task whose body cancels another task's handle and then keeps running for a while
+fn cancelling_body((log, victim, cell): (Log, u32, VictimCell)) -> NormalReturn<()> {
+  let h = cell.lock().unwrap_or_else(|e| e.into_inner()).take();
+  if let Some(h) = h {
+    log.mark(victim, "cancel_call", 0);
+    h.unsubscribe();
+    log.mark(victim, "cancel_ret", 0);
+  }
+  conc::yield_now();
+  conc::yield_now();
+  conc::yield_now();
+  NormalReturn::new(())
+}
+
 pub fn task_campaign(cfg: &Cfg, rep: &mut Report, n: usize) {
   let mut rng = Rng::new(cfg.seed ^ 0xC19F);
   for i in 0..n {
@@ -1649,9 +1665,25 @@ pub fn task_campaign(cfg: &Cfg, rep: &mut Report, n: usize) {
     // debounce / throttle keep their pending task in): a second owner samples is_closed() and
     // unsubscribes on a thread of its own
     let shared_form = r.chance(1, 2);
+    // a quarter of the plain-form runs cancel every handle from inside ANOTHER task's body
+    // (which then keeps running on its worker), not from a thread outside the pool
+    let cancel_from_task = !shared_form && r.chance(1, 2);
     let left = Arc::new(AtomicUsize::new(if shared_form { 2 } else { 1 }));
     let mut bodies: Vec<Box<dyn FnOnce() + Send>> = vec![];
-    if shared_form {
+    if cancel_from_task {
+      rep.count("runs_cancelling_from_inside_another_task", 1);
+      let mut cancellers = vec![];
+      for (t, h) in handles.into_iter().enumerate() {
+        let cell: VictimCell = Arc::new(Mutex::new(Some(h)));
+        cancellers.push(sched.schedule(OnceTask::new(cancelling_body, (log.clone(), 10 + t as u32, cell)), None));
+      }
+      let left = left.clone();
+      bodies.push(Box::new(move || {
+        conc::yield_now();
+        std::mem::forget(cancellers);
+        left.fetch_sub(1, Ordering::SeqCst);
+      }));
+    } else if shared_form {
       rep.count("runs_with_handles_shared_by_two_owners", 1);
       let cells: Vec<rxrust::rc::MutArc<Option<rxrust::scheduler::TaskHandle<NormalReturn<()>>>>> = handles.into_iter().map(|h| rxrust::rc::MutArc::own(Some(h))).collect();
       for owner in 0..2u32 {
